@@ -5,11 +5,18 @@ from runner import Harness
 def params(ctx):
     q = ctx.tier == "quick"
     n, nb = (4, 4) if q else (6, 5)
-    return {"N": n, "NB": nb, "UNW": n + 3, "UNWB": nb + 4, "LATMOD": "verif_c13_lat", "LATNAME": "c13_lattice_providers"}
+    return {"N": n, "NB": nb, "UNW": n + 3, "UNWB": nb + 4, "LATMOD": "verif_c13_lat", "LATNAME": "c13_lattice_providers", "PROVNAME": "c13_provide_oovs_recorded"}
 
 
 LAT_FNS = ["LatticeBuilder::build_lattice", "LatticeBuilder::provide_oovs", "LexiconSet::lookup (lexicon without keys)", "Lattice::{reset,has_previous_node,insert,connect_eos}",
            "CreatedWords::{add_word,is_empty}", "SimpleOovPlugin::provide_oov", "InputBuffer::{build,cat_at_char,can_bow,get_word_candidate_length}"]
+
+
+def prov_harness(name, rust_mod, kernel):
+    return Harness(name, "analysis__stateful_tokenizer", ["LatticeBuilder::provide_oovs", "Lattice::{reset,insert,has_previous_node}", "CreatedWords::{single,add_word,has_word,is_empty}"],
+                   "one call at position 0 of a 2-character ASCII text; symbolic word-start flags; nothing or words of one arbitrary length created before; a harness provider returning a one-character word",
+                   kernel=kernel, assumptions=["the provider returns one word of one character (what it returns is the providers' business: Out)", "1x1 zero connection matrix"],
+                   fs_array=True, timeout_s=900, mem_gb=12, rust_mod=rust_mod, outside=["the loop over positions and providers (build_lattice: thorough-only harness, out of memory)"])
 
 
 def lat_harness(name, rust_mod, kernel):
@@ -37,6 +44,8 @@ def harnesses(ctx):
         Harness("c13_created_words", "analysis__created", ["CreatedWords::single", "CreatedWords::add_word", "CreatedWords::add", "CreatedWords::has_word", "CreatedWords::is_empty"],
                 "two arbitrary added lengths and one queried length, all i64 >= 1",
                 kernel="C13-c created-length set: exact below 64, conservative (never No for a present length) above", timeout_s=600, mem_gb=8),
+        prov_harness("c13_provide_oovs_recorded", "verif_c13_lat",
+                     "C13-d every word a provider returns is inserted into the lattice and recorded in the created-length set, wherever it ends"),
         lat_harness("c13_lattice_providers", "verif_c13_lat",
                     "C13-d providers are consulted exactly at reachable positions whose character is not NOOOVBOW/NOOOVBOW2; the last provider is asked again where nothing exists"),
     ]
